@@ -38,6 +38,11 @@ where
   pub fn clear(&self) {
     *self.inner.write().unwrap() = None;
   }
+
+  /// Clears the slot and tells whether it was still occupied (atomically).
+  pub fn take(&self) -> bool {
+    self.inner.write().unwrap().take().is_some()
+  }
   pub fn empty(&self) -> bool {
     self.inner.read().unwrap().is_none()
   }
